@@ -40,13 +40,21 @@ def base_grids():
                       [('d', []), ('t', []), ('dt', []), ('c', [])],
                       [(('date', 2020, 2, 29), ('time', 12, 34, 56, 100000), _dt('London', 2020, 6, 1, 12, 0, 0, 123456), ('coord', 37.545826, -77.449188)),
                        (('date', 1970, 1, 1), ('time', 0, 0, 0, 0), _fx(-300, 2020, 1, 1, 0, 0, 0), ('coord', -0.5, 0.25)),
-                       (N.NULL, ('time', 23, 59, 59, 999999), _dt('New_York', 2020, 11, 1, 5, 30, 0), N.NULL)]))
+                       (N.NULL, ('time', 23, 59, 59, 999999), _dt('New_York', 2020, 11, 1, 5, 30, 0), N.NULL),
+                       # negative offsets that are not whole hours (named and zone-less), a positive one with minutes, a year below 1000
+                       (('date', 999, 1, 2), ('time', 0, 0, 0, 1), _dt('St_Johns', 2020, 6, 1, 12, 0, 0), ('coord', 0.0, -0.0)),
+                       (('date', 1, 1, 1), ('time', 7, 51, 43, 249), _fx(-570, 2020, 6, 1, 12, 0, 0), N.NULL),
+                       (N.NULL, N.NULL, _fx(345, 2020, 6, 1, 12, 0, 0, 500000), N.NULL)]))
     # 4: 3.0 collections
     B.append(N.mkgrid('3.0', [('l', ('list', (ONE, ('str', 'x'))))],
                       [('na', []), ('list', []), ('dict', [])],
                       [(N.NA, ('list', ()), N.mkdict([])),
                        (N.NULL, ('list', (ONE, N.NULL, ('list', (MK, ('str', 'a,b'))))), N.mkdict([('a', MK), ('b', N.num(2.0, 'kg')), ('c', ('str', 'x y'))])),
-                       (('xstr', 'hex', bytes.fromhex('deadbeef')), ('list', (('ref', 'r', 'd'), N.NA)), N.mkdict([('k', N.mkdict([('n', ('list', (ONE,)))]))]))]))
+                       (('xstr', 'hex', bytes.fromhex('deadbeef')), ('list', (('ref', 'r', 'd'), N.NA)), N.mkdict([('k', N.mkdict([('n', ('list', (ONE,)))]))])),
+                       # values that are falsy in Python, as dict values and as list elements
+                       (N.NULL, ('list', (N.num(0.0), ('str', ''), ('bool', False), ('list', ()), N.mkdict([]), ('uri', ''))),
+                        N.mkdict([('z', N.num(0.0)), ('s', ('str', '')), ('f', ('bool', False)), ('n', N.NULL), ('l', ('list', ())), ('d', N.mkdict([])),
+                                  ('u', ('uri', '')), ('g', N.mkgrid('3.0', [], [('e', [])], [])), ('q', N.num(0.0, 'kW')), ('t', ('time', 0, 0, 0, 0))]))]))
     # 5: nested grid, collections in metadata
     inner = N.mkgrid('3.0', [('im', ('str', 'in'))], [('x', []), ('y', [('u', MK)])], [(ONE, ('str', 'q')), (N.NULL, N.NA)])
     B.append(N.mkgrid('3.0', [('d', N.mkdict([('a', ONE)])), ('mk', MK)],
